@@ -631,13 +631,19 @@ func traceErrors(ct corrTrace) error {
 func oracleC16(ctA, ctB corrTrace) error {
 	h := ctA.H
 	m := newCorrModel()
-	discardedSes := map[int]int{} // session -> step of the cleanup that discards it
-	discardedPID := map[int]int{}
+	discardedSes := map[int]int{}  // session -> step of the cleanup that discards it
+	discardedPID := map[int]int{}  // pid whose waiting login is discarded -> step
+	survivorSes := map[int][]int{} // session -> steps of cleanups it was pending at and must survive
+	survivorPID := map[int][]int{}
 	for i, o := range h.Ops {
 		if o.K == "clean" {
 			beforeS := map[int]bool{}
-			for s := range m.sess {
-				beforeS[s] = true
+			for s, u := range m.sess {
+				if !u.bound {
+					beforeS[s] = true
+				} else {
+					survivorSes[s] = append(survivorSes[s], i) // a correlated session survives every cleanup
+				}
 			}
 			beforeP := map[int]bool{}
 			for p := range m.waiting {
@@ -647,11 +653,15 @@ func oracleC16(ctA, ctB corrTrace) error {
 			for s := range beforeS {
 				if _, still := m.sess[s]; !still {
 					discardedSes[s] = i
+				} else {
+					survivorSes[s] = append(survivorSes[s], i)
 				}
 			}
 			for p := range beforeP {
 				if _, still := m.waiting[p]; !still {
 					discardedPID[p] = i
+				} else {
+					survivorPID[p] = append(survivorPID[p], i)
 				}
 			}
 			continue
@@ -659,45 +669,78 @@ func oracleC16(ctA, ctB corrTrace) error {
 		m.step(i, o, h.Ops)
 	}
 	pidOf := firstOpen(h)
-	perSes := func(ct corrTrace, upto int) map[int][]int {
-		out := map[int][]int{}
-		for i := 0; i <= upto && i < len(ct.Steps); i++ {
+	// emissions per session: (step, event op index)
+	type em struct {
+		step, ev int
+		identity string
+	}
+	collect := func(ct corrTrace) map[int][]em {
+		out := map[int][]em{}
+		for i := range ct.Steps {
 			for _, a := range ct.Steps[i].Actual {
 				if s, ok := sesNumber(a.Ses); ok {
-					out[s] = append(out[s], a.Ev)
+					out[s] = append(out[s], em{i, a.Ev, a.Identity})
 				}
 			}
 		}
 		return out
 	}
-	for i := range h.Ops {
-		a, b := perSes(ctA, i), perSes(ctB, i)
-		sessions := map[int]bool{}
-		for s := range a {
-			sessions[s] = true
+	loginOfPID := map[int]int{}
+	for i, o := range h.Ops {
+		if o.K == "login" {
+			loginOfPID[o.P] = i
 		}
-		for s := range b {
-			sessions[s] = true
+	}
+	a, b := collect(ctA), collect(ctB)
+	sessions := map[int]bool{}
+	for s := range a {
+		sessions[s] = true
+	}
+	for s := range b {
+		sessions[s] = true
+	}
+	for s := range sessions {
+		k, dS := discardedSes[s]
+		k2, dP := discardedPID[pidOf[s]]
+		if dS || dP {
+			if !dS || (dP && k2 < k) {
+				k = k2
+			}
+			// discarded at step k: nothing may be emitted for it afterwards
+			// (an event emitted under a foreign identity is a correlation defect,
+			// C01/C04's concern, not a half that outlived its cut-off)
+			rightful := ""
+			if li, ok := loginOfPID[pidOf[s]]; ok {
+				rightful = ctA.Logins[li]
+			}
+			for _, e := range a[s] {
+				if e.step > k && e.identity == rightful {
+					return fmt.Errorf("step %d (%s): session s%d emitted event op %d although its pending half was uncorrelated and older than the cut-off of the cleanup at step %d (it must be discarded, the held events dropped, not emitted late); history: %s", e.step, h.Ops[e.step], s, e.ev, k, h)
+				}
+			}
+			continue
 		}
-		for s := range sessions {
-			k, dS := discardedSes[s]
-			k2, dP := discardedPID[pidOf[s]]
-			switch {
-			case dS || dP:
-				if len(a[s]) > 0 {
-					if !dS {
-						k = k2
-					}
-					return fmt.Errorf("after step %d (%s): session s%d emitted events %v although its pending half was older than the cut-off of the cleanup at step %d and uncorrelated (it must be discarded, the held events dropped, not emitted late); history: %s", i, h.Ops[i], s, a[s], k, h)
-				}
-			default:
-				// only the symptom of a wrong discard is judged: with the cleanup
-				// calls the session lost events it emits without them. Any other
-				// difference is a correlation defect whose effect merely depends on
-				// which other entries exist (C01/C02's concern).
-				if len(a[s]) < len(b[s]) && intsEqual(a[s], b[s][:len(a[s])]) {
-					return fmt.Errorf("after step %d (%s): session s%d emitted %v with the cleanup calls and %v without them, although no cut-off applies to it (cleanup must not discard a younger or a correlated entry); history: %s", i, h.Ops[i], s, a[s], b[s], h)
-				}
+		// not to be discarded: with the cleanup calls the session must not lose
+		// events it emits without them — judged only if the session (or the login
+		// of its pid) was pending at a cleanup that must keep it, and the loss
+		// begins after that cleanup
+		survived := append(append([]int{}, survivorSes[s]...), survivorPID[pidOf[s]]...)
+		if len(survived) == 0 || len(a[s]) >= len(b[s]) {
+			continue
+		}
+		prefix := true
+		for i := range a[s] {
+			if a[s][i].ev != b[s][i].ev {
+				prefix = false
+			}
+		}
+		if !prefix {
+			continue
+		}
+		firstMissing := b[s][len(a[s])]
+		for _, k := range survived {
+			if k < firstMissing.step {
+				return fmt.Errorf("session s%d was pending and younger than the cut-off at the cleanup of step %d; with the cleanup calls it never emits event op %d (emitted at step %d without them): cleanup must not discard a younger or a correlated entry; history: %s", s, k, firstMissing.ev, firstMissing.step, h)
 			}
 		}
 	}
